@@ -675,10 +675,10 @@ def chunk_txt(r, data):
     return "%s:%s:%s" % (hx0(d.encode()), hx0(ext), hx0(data))
 
 
-def gen_wellformed(ctx, r, size_hint=None):
-    """-> (render line, body length, ishead, framing kind)"""
-    ishead = r.random() < 0.12
-    status = r.choice([200, 200, 200, 201, 206, 301, 400, 404, 500, 599, 204, 304])
+def gen_wellformed(ctx, r, size_hint=None, tag="c09", with_body=False):
+    """-> (render line, body length, ishead, framing kind); with_body: never HEAD / 204 / 304"""
+    ishead = r.random() < 0.12 and not with_body
+    status = r.choice([200, 200, 200, 201, 206, 301, 400, 404, 500, 599] + ([] if with_body else [204, 304]))
     bodiless = ishead or status in (204, 304)
     nint = r.choice([0, 0, 0, 1, 1, 2, 5])
     nf = r.choice([0, 0, 1, 2, 3, 5, 10, 40])
@@ -697,12 +697,12 @@ def gen_wellformed(ctx, r, size_hint=None):
         if r.random() < 0.2:
             extra.append(field_txt(r, b"Transfer-Encoding", b"chunked"))
         final, nfin = msg_txt(r, status, 0, [field_txt(r) for _ in range(nf)] + extra)
-        ctx.count("c09.framing.none")
+        ctx.count(tag + ".framing.none")
         return "render %d %s %s none -" % (ishead, "|".join(interims) or "-", final), 0, ishead, "none"
     final, nfin = msg_txt(r, status, nf)
     pos = r.randrange(nfin + 1)
     kind = r.choice(["clen", "chunked", "chunked", "close"])
-    ctx.count("c09.framing." + kind)
+    ctx.count(tag + ".framing." + kind)
     if kind == "clen":
         return "render 0 %s %s clen.%d %s" % ("|".join(interims) or "-", final, pos, hx(body)), blen, ishead, kind
     if kind == "close":
@@ -772,6 +772,79 @@ def check_http_decode(ctx):
                "well-formed responses generated as abstract objects, serialised by the SPEC (HttpSpec.render, extracted), played "
                "to the real client in many segmentations with limits at and above the body size: the callback must equal "
                "HttpSpec.expect exactly (status, header names/values in order, body) and agree with the extracted model",
+               samples=[cases[0][:300], cases[-1][:300]] if cases else [])
+
+
+# --------------------------------------------------------------------------------------------
+# C08, oversize clause: well-formed responses (HttpSpec.render) with the limit BELOW the body size
+
+def check_http_oversize(ctx):
+    """Expected outcome from the SPEC (HttpSpec.expect_limited, theorem C08_limit_respected): a body above the limit
+    must be reported as status/headers of the response with bodylen (size_t)(-1) and no buffer - for the three
+    framings, every segmentation, every ending of the connection; at and above the body size the decoded response."""
+    sub = "http.oversize"
+    exe, mexe = _build(ctx, sub)
+    if not exe:
+        return
+    r = ctx.rng
+    rp = replay_cases(ctx, sub)
+    cases, want = [], []
+    if rp is not None:
+        cases, want = rp, [None] * len(rp)
+    else:
+        n = ctx.n(240, 8000)
+        sizes = [1, 1, 2, 3, 5, 17, 40, 100, 1000, 4095, 4096, 4097, 9000, 20000]
+        gens = [gen_wellformed(ctx, r, size_hint=r.choice(sizes), tag="c08.oversize", with_body=True) for _ in range(n)]
+        if not ctx.quick:
+            gens += [gen_wellformed(ctx, r, size_hint=k, tag="c08.oversize", with_body=True) for k in (1048577, 1500000)]
+        rendered = run_model(mexe, [g[0] for g in gens])
+        queries, qcase = [], []
+        for g, line in zip(gens, rendered):
+            m = re.match(r"ok (\d) (\S+)( cb=\S+)$", line)
+            if not m or m.group(1) != "1":
+                ctx.fail(sub, "tie", g[0][:300], "spec renderer / well-formedness gave: " + line[:200])
+                continue
+            stream = bytes.fromhex(m.group(2)) if m.group(2) != "-" else b""
+            blen = g[1]
+            big = len(stream) > 30000
+            for _ in range(1 if big else ctx.n(3, 4)):
+                k = r.randrange(10)
+                if k <= 2:
+                    limit, cls = blen - 1, "just-above"          # body = limit + 1
+                elif k == 3:
+                    limit, cls = max(0, blen - 2), "just-above"
+                elif k == 4:
+                    limit, cls = 0, "limit-zero"
+                elif k <= 7:
+                    limit, cls = r.randrange(blen), "inside"       # for chunked: after some chunks were stored
+                elif k == 8:
+                    limit, cls = blen, "at-limit"
+                else:
+                    limit, cls = blen + 1, "below-limit"
+                ctx.count("c08.oversize.%s.%s" % (g[3], cls))
+                segs = seg_choice(ctx, r, stream, "c08.oversize")
+                # an oversized body is reported before the end of the stream is seen: any ending; a body within the
+                # limit that is delimited by the close needs the EOF
+                ending = "e" if (g[3] == "close" and limit >= blen) else r.choice("eers")
+                cases.append(case_line(stream, limit, r.choice([b"GET", b"POST", b"head"]), segs, ending))
+                queries.append("expectl %x %s" % (limit, g[0][len("render "):]))
+        exp = run_model(mexe, queries)
+        for q, e in zip(queries, exp):
+            m = re.match(r"ok( cb=\S+)$", e)
+            if not m:
+                ctx.fail(sub, "tie", q[:300], "spec expect_limited gave: " + e[:200])
+            want.append(m.group(1) if m else None)
+        nover = sum(1 for w in want if w and w.endswith("/toobig"))
+        ctx.count("c08.oversize.expected-toobig", nover)
+        if cases and nover * 2 < len(cases):
+            ctx.fail(sub, "tie", "", "generator: only %d of %d cases expect the oversize report" % (nover, len(cases)))
+    sem, model = check_common(ctx, sub, cases, exe, mexe, expect_cb=want)
+    ctx.record(sub, cases, set(zip(cases, sem)),
+               "well-formed responses generated as abstract objects and serialised by the SPEC (HttpSpec.render), played to "
+               "the real client with the caller's limit just below / inside / at / above the body size, three framings, many "
+               "segmentations, EOF / error / stall after the last byte: the callback must equal HttpSpec.expect_limited "
+               "(above the limit: the response's status and headers, bodylen (size_t)(-1), no buffer) and agree with the "
+               "extracted model",
                samples=[cases[0][:300], cases[-1][:300]] if cases else [])
 
 
@@ -964,5 +1037,5 @@ def check_http_limits(ctx):
                samples=[cases[0][:300]])
 
 
-SUBCHECKS = {"C08": [check_http_safety], "C09": [check_http_limits, check_http_decode, check_http_request],
+SUBCHECKS = {"C08": [check_http_safety, check_http_oversize], "C09": [check_http_limits, check_http_decode, check_http_request],
              "C14": [check_http_allocfail]}
